@@ -383,15 +383,15 @@ Proof.
     assert (Hv : v = p_val p) by (unfold v; destruct Hk as [K|K]; rewrite K; reflexivity).
     rewrite Hv, <- Gi. apply Hw; assumption. }
   cbn [bapply]. change (b_pend (b <| b_now := t |>)) with (b_pend b). rewrite Hop. fold v. fold lr. fold b1.
-  set (b2 := if (io_hb_op (inst_of b1 i) =? op) && (io_hb_te (inst_of b1 i) <? 0)
-             then upd_inst b1 i (fun x => x <| io_hb_te := t |>) else b1).
+  destruct ((io_hb_op (inst_of b1 i) =? op) && (io_hb_te (inst_of b1 i) <? 0)) eqn:Ecur; [|exact I1]. cbv zeta.
+  set (b2 := upd_inst b1 i (fun x => x <| io_hb_te := t |>)).
   assert (S2 : b_pend b2 = b_pend b1 /\ b_rets b2 = b_rets b1 /\ b_cfgs b2 = b_cfgs b1 /\ b_vals b2 = b_vals b1 /\
                b_hist b2 = b_hist b1 /\ (forall j, io_views (inst_of b2 j) = io_views (inst_of b1 j))).
-  { unfold b2. destruct ((io_hb_op (inst_of b1 i) =? op) && (io_hb_te (inst_of b1 i) <? 0)); repeat split; auto.
+  { unfold b2. repeat split; auto.
     intros j. rewrite inst_of_upd. destruct (Z.eqb_spec i j); [subst|]; reflexivity. }
   destruct S2 as (P2 & R2 & C2 & V2 & H2 & W2).
   assert (I2 : Inv2 b2).
-  { apply (Inv2_transfer b1); auto; [rewrite H2; auto|]. apply (views_same_transfer b1); auto. rewrite H2; auto. }
+  { apply (Inv2_transfer b1); auto. apply (views_same_transfer b1); auto. }
   destruct ((p_kind p =? kUpdate) && (p_inner p =? sHeartbeat) && (rk =? oOk) && io_flag (inst_of b2 i)
             && (v_stok (vinfo_of b2 (p_val p)) =? io_tok (inst_of b2 i))
             && (t - p_t p <? hb_update_timeout (ic_H (cfg_of b2 i))))%bool eqn:Econd; [|exact I2].
@@ -409,7 +409,7 @@ Proof.
   - subst j. cbn [io_views]. intros [Hhd|Htl].
     + inversion Hhd. subst tk r. exists (p_val p).
       change (cfg_of (upd_inst b2 i _) i) with (cfg_of b2 i). rewrite Ec2, <- Gi, <- Kk.
-      split; [destruct X as (x & Hx & A); exists x; split; [cbn; rewrite H2; exact Hx|exact A]|].
+      split; [destruct X as (x & Hx & A); exists x; split; [exact Hx|exact A]|].
       unfold sok_of, sid_of, tok_of in *. change (vinfo_of (upd_inst b2 (p_i p) _) (p_val p)) with (vinfo_of b2 (p_val p)).
       rewrite Ev2. repeat split; auto.
       rewrite Gi. rewrite Ev2 in Etok. exact Etok.
